@@ -13,6 +13,29 @@ type sliceAsList struct {
 	ref    *Node
 	src    reflect.Value
 	update NodeListUpdate
+
+	// reads the slice from the container that keeps it, optional
+	current func() (reflect.Value, error)
+}
+
+// refresh takes up the slice as it is now: another node of this list may have replaced it
+// (or moved its items) by adding or removing an item
+func (def *sliceAsList) refresh() {
+	if def.current == nil {
+		return
+	}
+	now, err := def.current()
+	if err != nil {
+		return
+	}
+	for now.IsValid() && (now.Kind() == reflect.Interface || now.Kind() == reflect.Pointer) {
+		now = now.Elem()
+	}
+	if !now.IsValid() {
+		def.src = reflect.MakeSlice(def.src.Type(), 0, 0)
+	} else if now.Kind() == reflect.Slice && now.Type() == def.src.Type() {
+		def.src = now
+	}
 }
 
 func newSliceAsList(ref *Node, src reflect.Value, u NodeListUpdate) *sliceAsList {
@@ -24,6 +47,7 @@ func newSliceAsList(ref *Node, src reflect.Value, u NodeListUpdate) *sliceAsList
 }
 
 func (def *sliceAsList) getByKey(r node.ListRequest) (reflect.Value, error) {
+	def.refresh()
 	if !isKeyValid(r.Key) {
 		return reflect.Value{}, fmt.Errorf("invalid key for %v", r.Path.String())
 	}
@@ -35,6 +59,7 @@ func (def *sliceAsList) getByKey(r node.ListRequest) (reflect.Value, error) {
 }
 
 func (def *sliceAsList) getByRow(r node.ListRequest) (reflect.Value, []reflect.Value, error) {
+	def.refresh()
 	var empty reflect.Value
 	if r.Row >= def.src.Len() {
 		return empty, nil, nil
@@ -113,6 +138,7 @@ func (def *sliceAsList) findByKey(m meta.Meta, target []val.Value, keyMeta []met
 }
 
 func (def *sliceAsList) deleteByKey(r node.ListRequest) error {
+	def.refresh()
 	if !isKeyValid(r.Key) {
 		return fmt.Errorf("invalid key for %v", r.Path.String())
 	}
@@ -130,6 +156,7 @@ func (def *sliceAsList) deleteByKey(r node.ListRequest) error {
 }
 
 func (def *sliceAsList) newListItem(r node.ListRequest) (reflect.Value, error) {
+	def.refresh()
 	var empty reflect.Value
 	item, err := def.ref.NewObject(def.src.Type().Elem(), r.Meta, true)
 	if err != nil {
